@@ -65,7 +65,7 @@ def tlc(ctx, cfg, module, workers=12, timeout=900, simulate=None, depth=None, en
     name = os.path.splitext(os.path.basename(cfg))[0]
     meta = os.path.join(ctx.scratch, f"tlc-{name}-{len(ctx.tlc_runs)}")
     out = os.path.join(ctx.scratch, f"tlc-{name}-{len(ctx.tlc_runs)}.out")
-    cmd = ["java", "-XX:+UseParallelGC"]
+    cmd = ["java", "-Xss1g", "-XX:+UseParallelGC"]
     if jvm:
         cmd += jvm
     cmd += ["-cp", TLA_CP, "tlc2.TLC", "-workers", str(workers), "-metadir", meta, "-cleanup", "-noGenerateSpecTE",
@@ -345,7 +345,21 @@ def check_C05(ctx):
     return finish(ctx)
 
 
-CHECKS = {"C01": check_C01, "C02": check_C02, "C03": check_C03, "C04": check_C04, "C05": check_C05}
+def check_C06(ctx):
+    ctx.rule = ("TLC computes with exact big-natural arithmetic (BigNat/Hypergeom.tla) P[X>=k] = TailNum/TailDen and fold = kN/(nK) for every (N,K,n,k) with N<=12 "
+                "(<=20 thorough) and for selected profiles with N in {170,171,200,400} (169..173, 200, 400, 1000 thorough), self-checking Vandermonde and antitonicity; "
+                "every (N,n) group is realised as real ontologies in three layouts (whole ontology as background, proper sub-collection, inherited annotations) x three kinds "
+                "with decoy annotations of the other kinds, and gene/omim/orpha_enrichment are compared (one record per linked annotation, count, p within rel 1e-10, fold, range, monotone in k); "
+                "non-trivial = profile with k > 0")
+    r = tlc(ctx, "mc/MC_Hyper.cfg" if ctx.quick else "mc/MC_HyperThorough.cfg", "mc/MC_Hyper.tla", workers=14, timeout=3000)
+    s = hv(ctx, "replay-enrich", prop="C06", **{"in": r["out"]})
+    ctx.traces += s.get("cases", 0)
+    ctx.assumptions += ["the final big-integer division num/den -> f64 is done by the harness (top 24 decimal digits), everything before it is exact TLC arithmetic",
+                        "tolerance: relative 1e-10 (N<=400) / 1e-9 above; the unchanged crate is within 8e-13"]
+    return finish(ctx)
+
+
+CHECKS = {"C01": check_C01, "C02": check_C02, "C03": check_C03, "C04": check_C04, "C05": check_C05, "C06": check_C06}
 
 
 def run_check(prop, tier, seed):
